@@ -26,7 +26,13 @@ def open_image(mapper, path, *, use_cache=True, create_cache=False, records_per_
 
     fs = DirFileSystem(path=mapper.root, fs=mapper.fs)
 
-    with fs.open(path, mode="rb") as f:
+    try:
+        f = fs.open(path, mode="rb")
+    except KeyError as e:
+        # some filesystems (e.g. zip archives) report missing files as KeyError
+        raise FileNotFoundError(f"Cannot open {path}") from e
+
+    with f:
         header, metadata = read_metadata(f, records_per_chunk)
 
         group, array_metadata = transform_metadata(header, metadata)
